@@ -160,9 +160,30 @@ func (fr *Frame) evalCall(st *State, call *ast.CallExpr, nWant int) []*Term {
 		if rs, ok := fr.streamBuiltin(st, key, call, sig); ok {
 			return rs
 		}
+		var deepEq, deepEqNonEmpty *Term
+		if key == "reflect.DeepEqual" && len(call.Args) == 2 {
+			// reflect.DeepEqual of two slices of one basic element type: equal lengths and equal elements
+			// (nil vs. empty non-nil is not distinguished; stated in the evidence)
+			ta, tb := info.TypeOf(call.Args[0]), info.TypeOf(call.Args[1])
+			if sa, ok := ta.Underlying().(*types.Slice); ok && types.Identical(ta, tb) {
+				if bt, basic := sa.Elem().Underlying().(*types.Basic); basic && bt.Info()&types.IsFloat == 0 && bt.Info()&types.IsComplex == 0 {
+					a, b := fr.eval(st, call.Args[0]), fr.eval(st, call.Args[1])
+					j := Var("j!de", IntSort)
+					deepEq = And(Eq(Acc(a, "len"), Acc(b, "len")),
+						Forall([]*Term{j}, Implies(And(Le(IntLit(0), j), Lt(j, Acc(a, "len"))), Eq(Select(Acc(a, "arr"), j), Select(Acc(b, "arr"), j)))))
+					deepEqNonEmpty = Gt(Acc(a, "len"), IntLit(0))
+					e.assumed["reflect.DeepEqual on []"+sa.Elem().String()+": true implies equal lengths and elements; equal non-empty slices imply true"] = true
+				}
+			}
+		}
 		recv, args := fr.evalRecvArgs(st, call, fn, sig)
 		if fc := e.cs.Funcs[key]; fc != nil && !(fr.top.fc == fc) && !(fc.Options["inline"] != "" && e.funcs[key] != nil) {
-			return fr.applyContract(st, fc, fn, sig, recv, args, call)
+			rs := fr.applyContract(st, fc, fn, sig, recv, args, call)
+			if deepEq != nil && len(rs) == 1 {
+				st.Assume(Implies(rs[0], deepEq))
+				st.Assume(Implies(And(deepEq, deepEqNonEmpty), rs[0]))
+			}
+			return rs
 		}
 		if fi := e.funcs[key]; fi != nil && !externalPkgs[pkgPath] {
 			if fc := e.cs.Funcs[key]; fc != nil && fc.Options["inline"] == "" {
